@@ -26,7 +26,7 @@ ErrKind(c) == IF c = "XDiv0" THEN "Div0" ELSE "NA"
 \* documented conversions (statement: numeric casts, numeric and boolean strings,
 \* Empty as None / false / "", identity); "ERR" = the record fails with a non-cell error
 ConvBase(B, c) ==
-  CASE B = "String" -> (CASE c = "E" -> "s:" [] c = "Sx" -> "s:x" [] c = "S12" -> "s:12"
+  CASE B = "String" -> (CASE c = "E" -> "s:" [] c = "S0" -> "s:" [] c = "Sx" -> "s:x" [] c = "S12" -> "s:12"
                           [] c = "Spad" -> "s: a " [] OTHER -> "ERR")
     [] B = "f64"    -> (CASE c = "I7" -> "f:7.0" [] c = "F1.5" -> "f:1.5" [] c = "F2" -> "f:2.0"
                           [] c = "S12" -> "f:12.0" [] c = "S1.5" -> "f:1.5" [] OTHER -> "ERR")
@@ -43,18 +43,20 @@ ConvBase(B, c) ==
     [] B = "F64OrNone" -> (CASE c = "I7" -> "f:7.0" [] c = "F2" -> "f:2.0" [] c = "F1.5" -> "f:1.5" [] c = "S12" -> "f:12.0"
                              [] c = "S1.5" -> "f:1.5" [] c = "B1" -> "f:1.0" [] c = "B0" -> "f:0.0" [] OTHER -> "none")
     [] B = "Data"   -> (CASE c = "E" -> "d:E" [] c = "I7" -> "d:I7" [] c = "F1.5" -> "d:F1.5"
-                          [] c = "Sx" -> "d:Sx" [] c = "B1" -> "d:B1" [] OTHER -> "ERR")
+                          [] c = "Sx" -> "d:Sx" [] c = "B1" -> "d:B1" [] c = "S0" -> "d:S0" [] OTHER -> "ERR")
 Conv(T, c) == IF IsOpt(T) /\ c = "E" THEN "none" ELSE ConvBase(Base(T), c)
 
+\* "S0" is a cell holding the empty STRING: a value, not an empty cell -- Some("") under Option,
+\* present under by-name binding -- which only "E" (Data::Empty) is.
 \* cell codes a column of type T may hold in the checked language: those whose conversion
 \* the statement fixes, one unambiguous failure ("x" is neither a number nor a boolean)
 OkCodes(T) ==
   LET B == Base(T)
-      ok == CASE B = "String" -> {"E", "Sx", "S12", "Spad"}
+      ok == CASE B = "String" -> {"E", "S0", "Sx", "S12", "Spad"}
               [] B = "f64"  -> {"I7", "F1.5", "F2", "S12", "S1.5", "Sx"}
               [] B = "i64"  -> {"I7", "F2", "F1.5", "S12", "Sx"}
               [] B = "bool" -> {"B1", "B0", "STRUE", "Sfalse", "Strue", "STrue", "SFALSE", "SFalse", "E", "Sx"}
-              [] B = "Data" -> {"E", "I7", "F1.5", "Sx", "B1"}
+              [] B = "Data" -> {"E", "S0", "I7", "F1.5", "Sx", "B1"}
               [] B = "I64OrNone" -> {"E", "I7", "F2", "F1.5", "S12", "S1.5", "Sx", "B1", "B0", "STRUE"}
               [] B = "F64OrNone" -> {"E", "I7", "F2", "F1.5", "S12", "S1.5", "Sx", "B1", "B0", "STRUE"}
   IN ok \cup (IF IsOpt(T) THEN {"E"} ELSE {})
